@@ -698,7 +698,7 @@ def run_chunk(spec):
     _init_builtins()
     res = Result()
     tier, ci = spec["tier"], spec["chunk"]
-    wd = Watchdog(res, 180.0)
+    wd = Watchdog(res, 400.0)
     rng = rng_for(spec["seed"], ID, ci, "plan")
     jobs = []
     n_gen = 4 if tier == "quick" else 110
